@@ -569,6 +569,19 @@ def _pathlengths(repo, col):
                     return repr(t0.name)
                 if t0.op == "sub" and t0.args[1].op == "const" and isinstance(t0.args[1].name, int) and col_of(t0.args[0]) == 0:
                     return f"type[{t0.args[1].name}]"
+                # `first, second = X[:2, 0]`  /  X[:2, 0][k]  /  X[k, 0]
+                if (t0.op == "item" or (t0.op == "sub" and t0.args[1].op == "const")) and isinstance(t0.name if t0.op == "item" else t0.args[1].name, int):
+                    k_ = t0.name if t0.op == "item" else t0.args[1].name
+                    inner = t0.args[0]
+                    if inner.op == "sub" and inner.args[1].op == "tuple" and len(inner.args[1].args) == 2 and col_of(inner) == 0 and \
+                            inner.args[1].args[0].op == "slice":
+                        lo, hi, st = inner.args[1].args[0].args
+                        if (lo.op == "const" and lo.name in (None, 0)) and st.op == "const" and st.name is None and k_ >= 0 and \
+                                (hi.op == "const" and (hi.name is None or (isinstance(hi.name, int) and k_ < hi.name))):
+                            return f"type[{k_}]"
+                if t0.op == "sub" and t0.args[1].op == "tuple" and len(t0.args[1].args) == 2 and col_of(t0) == 0 and \
+                        t0.args[1].args[0].op == "const" and isinstance(t0.args[1].args[0].name, int):
+                    return f"type[{t0.args[1].args[0].name}]"
                 if t0.op == "mcall" and t0.name == "len" or (t0.op == "call" and t0.name == "len"):
                     return "len"
                 return None
@@ -714,20 +727,40 @@ def _split(repo, col):
         return None
 
     direct, indirect = set(), set()
-    seen_k = set()
-    for t_ in terms:
-        for x in t_.walk():
-            if x.op == "cmp" and x.name == "!=" and len(x.args) == 2 and x.key() not in seen_k:
-                seen_k.add(x.key())
-                for side in x.args:
-                    k = column_of(side)
-                    if k is not None:
-                        direct.add(k)
-                    else:
-                        for y in side.walk():
-                            k2 = column_of(y)
-                            if k2 is not None and side.op == "cmp":
-                                indirect.add(k2)
+
+    def starts(g, neg=False):
+        """columns whose CHANGE (value differs from the previous row's) makes the condition true; None if not of that shape.
+        `a != b or c != d`, `not (a == b and c == d)`, nested ifs -- all the same condition."""
+        while g.op == "not" or (g.op == "unary" and g.name == "Not"):
+            neg, g = not neg, g.args[0]
+        if g.op == "bool" and ((g.name == "Or" and not neg) or (g.name == "And" and neg)):
+            out = set()
+            for a_ in g.args:
+                r_ = starts(a_, neg)
+                if r_ is None:
+                    return None
+                out |= r_
+            return out
+        if g.op == "cmp" and len(g.args) == 2 and ((g.name == "!=" and not neg) or (g.name == "==" and neg)):
+            ks = set()
+            for side in g.args:
+                k = column_of(side)
+                if k is not None:
+                    ks.add(("d", k))
+                elif side.op == "cmp":
+                    for y in side.walk():
+                        k2 = column_of(y)
+                        if k2 is not None:
+                            ks.add(("i", k2))
+            return ks or None
+        return None
+    app = [s_ for s_ in ex.stores if s_.kind == "mcall" and s_.key.name == "append" and
+           any(starts(g) is not None for g in s_.guards if g.op != "loop")]
+    for s_ in app[:1]:
+        for g in s_.guards:
+            r_ = starts(g) if g.op != "loop" else None
+            for kind_, k in (r_ or ()):
+                (direct if kind_ == "d" else indirect).add(k)
     if not direct and not indirect:
         col.unk(R, fi, "_split_into_branches: a branch starts at a discontinuity of the trace or at a type change", "comparisons not recognised", node=fi.node)
     else:
